@@ -1,0 +1,29 @@
+//go:build verif
+
+package state
+
+import "github.com/kardiachain/go-kardia/lib/common"
+
+// Verification hooks for the out-of-tree harness (/verif, property C08).  Add-only: read-only
+// accessors to unexported fields; nothing here is compiled without the `verif` build tag.
+
+// VerifHasSnap reports whether this StateDB currently reads through a snapshot layer
+// (s.snap != nil), i.e. whether account / storage reads take the snapshot path.
+func (s *StateDB) VerifHasSnap() bool { return s.snap != nil }
+
+// VerifJournalLen returns the number of entries in the change journal.
+func (s *StateDB) VerifJournalLen() int { return s.journal.length() }
+
+// VerifMarks returns the bookkeeping marks of an address without loading anything:
+// member of journal.dirties, stateObjectsPending, stateObjectsDirty, stateObjectsDestruct,
+// and whether stateObjects holds an object flagged deleted.
+func (s *StateDB) VerifMarks(addr common.Address) (dirty, pending, dirtyForCommit, destructed, deleted bool) {
+	_, dirty = s.journal.dirties[addr]
+	_, pending = s.stateObjectsPending[addr]
+	_, dirtyForCommit = s.stateObjectsDirty[addr]
+	_, destructed = s.stateObjectsDestruct[addr]
+	if obj := s.stateObjects[addr]; obj != nil {
+		deleted = obj.deleted
+	}
+	return
+}
